@@ -5,7 +5,7 @@
    repairs F12, F13 and F27 are in place (all three are in /repo). *)
 From Coq Require Import List Arith.
 Import ListNotations.
-From Onet Require Import Overlay.Done Overlay.DoneProofs.
+From Onet Require Import Overlay.Done Overlay.DoneProofs Overlay.DoneRelease.
 
 (* after Done, the token stays done: never listed again, its constructor is never
    called again, no message is handed to it -- for the pinned and the repaired code *)
@@ -55,6 +55,26 @@ Theorem c11_timer_releases : forall fx s c i,
                 trees s2 i = TAbsent /\ cancel s2 i = None.
 Proof. exact timer_releases. Qed.
 Print Assumptions c11_timer_releases.
+
+(* "... and is released afterwards", for every run of the repaired code in which tree i came
+   into the store only through runs (no bare RegisterTree of it by a service and no tree response
+   for it - the parked messages a response serves are not part of this model): once every timer
+   goroutine has run to completion, no message thread that found the tree is still in flight
+   and no instance on it is listed, the tree is no longer stored *)
+Theorem c11_released_afterwards : forall fx acts s i,
+  good fx -> f28 fx = true -> run fx init acts = Some s ->
+  Forall (fun a => a <> LocalTree i /\ a <> TreeArrive i) acts ->
+  timers s = [] -> (forall k, In k (hits s) -> tree_of k <> i) -> in_use s i = false ->
+  trees s i <> TPresent.
+Proof. exact released_afterwards. Qed.
+Print Assumptions c11_released_afterwards.
+
+Example c11_released_example :
+  exists s, run all_fixed init [LocalCreate ka; LocalSet ka; MsgLookup kb; MsgDeliver kb; Done ka; Done kb;
+                                MsgLookup ka; MsgDeliver ka; TimerCancel 0; TimerFire 1; TimerDelete 1] = Some s /\
+            timers s = [] /\ hits s = [] /\ in_use s 0 = false /\ trees s 0 = TAbsent.
+Proof. exact released_example. Qed.
+Print Assumptions c11_released_example.
 
 (* the pinned code: one witness schedule per missing repair *)
 Theorem c11_timer_race_refuted :
